@@ -235,6 +235,18 @@ def o133(ctx):
             ctx.finding(q, f"dispatch of {shape!r}", f"shape keyword {shape!r} must build a {target[shape]} (calls {list(seen)})", fn, m)
             continue
         kw = seen[target[shape]]
+        # an explicit box size reaches the shape function as given, also when it is small compared with the numbers in the name
+        for given in (64, 16):
+            seen.clear()
+            Interp(ctx.prog, summaries=summ).run(q, [K(example)], {"mask_size": K(given)})
+            ms_ = seen.get(target[shape], {}).get("mask_size")
+            ctx.count(1)
+            import math
+            # (the spherical shell is built in a box enlarged by the shell thickness, rounded up to an even size -- as the generator documents)
+            expect_ms = math.ceil((given + (7 + 3 * groups.index("s"))) / 2) * 2 if shape == "s_shell" and "s" in groups else given
+            if ms_ is None or not (is_pyconst(ms_) and pyval(ms_) == expect_ms):
+                ctx.finding(q, f"{shape}: mask_size", f"'{example}' with mask_size={given}: the requested box size must be handed to {target[shape]} "
+                            f"as given (the call passes {tm.show(to_term(ms_))[:60] if ms_ is not None else None})", fn, m)
         for i, g in enumerate(groups):
             val = 7 + 3 * i
             dest = role[g]
@@ -320,31 +332,7 @@ def o134(ctx):
                     ctx.finding(q, e.node, f"{name} folds in place into an array that may alias an input mask (not a fresh copy)", e.node, m)
 
 
-def o136(ctx):
-    """get_correct_format (summarised in the shape rules): a 3-vector comes back component by component as integers, whatever the
-    reference box; no value -> half the reference box"""
-    q = CM + "get_correct_format"
-    m, fn = ctx.prog.func(q)
-    ctx.touched(q)
-    V = Arr([sym("v0"), sym("v1"), sym("v2")], 1)
-    REF = Arr([sym("n0"), sym("n1"), sym("n2")], 1)
-    cases = (("centre / radii given, with the box as reference", [V, REF], [mk("int", sym(f"v{k}")) for k in range(3)]),
-             ("value given without reference", [V], [mk("int", sym(f"v{k}")) for k in range(3)]),
-             ("no value: half of the reference box", [K(None), REF], [mk("floordiv", mk("int", sym(f"n{k}")), const(2)) for k in range(3)]))
-    sam = {f"v{k}": int_sampler(0, 60) for k in range(3)}
-    sam.update({f"n{k}": int_sampler(4, 48) for k in range(3)})
-    for label, args, want in cases:
-        r = Interp(ctx.prog).run(q, list(args), {})
-        a = r.ret if isinstance(r.ret, Arr) else None
-        if a is None or len(a.cols) != 3:
-            raise Unsupported(f"get_correct_format ({label}) does not return a 3-vector", fn)
-        for k in range(3):
-            v = tm.equivalent(a.cols[k], want[k], samplers=sam, n=30, seed_tag=q + label + str(k))
-            ctx.count(1, {"case": label, "component": k, "equal": bool(v)} if k == 0 else None)
-            if not v:
-                ctx.finding(q, f"{label}: component {k}", f"get_correct_format ({label}): component {k} must be {tm.show(want[k])} -- the centre and the "
-                            "radii of a shape are taken as given, per axis (a non-cubic box has three different extents)", fn, m,
-                            witness=v.witness, extracted=tm.show(a.cols[k])[:120])
+from .maskmodel import o_get_correct_format as o136, o_preprocess_params as o138  # noqa: E402
 
 
 def o135(ctx):
@@ -394,6 +382,7 @@ def o135(ctx):
 def _obligations():
     return [
         Obligation("O13.6", "get_correct_format returns 3-vectors as given (per axis) and box//2 by default; Gaussian edge options", o136, floor=9),
+        Obligation("O13.8", "preprocess_params: radius unchanged unless the blur goes outwards (then ceil(r + 5 sigma)), for every r / sigma", o138, floor=4),
         Obligation("O13.7", "soft edges: the Gaussian runs with the requested sigma, 4-sigma support and the default border handling (shared with C12)",
                    _c12.o125, floor=2),
         Obligation("O13.5", "ellipsoid voxels satisfy sum(((i_k - c_k)/r_k)^2) <= 1 (even sizes, anisotropic radii, per-axis pairing)", o135, floor=100),
